@@ -1,6 +1,7 @@
 """
 C18  WSGI responses are framed and pipelined requests answered in order.
 """
+from ..core import CaseTimeout as _CaseTimeout
 from .. import netlab, rawpeer, httpref
 from ..core import Result, digest
 from hio.core.http import serving as hserving
@@ -138,6 +139,8 @@ def run_case(tape, tier):
             net.current_owner = "server"
             try:
                 server.service()
+            except _CaseTimeout:
+                raise
             except BaseException as ex:
                 raised.append((type(ex).__name__, str(ex)[:150]))
                 net.current_owner = None
